@@ -349,6 +349,14 @@ class BasicZoneProcessor: public ZoneProcessor {
      *
      * Not private, used by ExtendedZoneProcessor.
      */
+#if defined(SEANDST_ACETIME_VERIF)
+    /** Verification hook: number of transitions dropped by addTransition(). */
+    static unsigned long& verifDroppedTransitions() {
+      static unsigned long count = 0;
+      return count;
+    }
+#endif
+
     static basic::MonthDay calcStartDayOfMonth(int16_t year, uint8_t month,
         uint8_t onDayOfWeek, int8_t onDayOfMonth) {
       if (onDayOfWeek == 0) return {month, (uint8_t) onDayOfMonth};
@@ -754,6 +762,10 @@ class BasicZoneProcessor: public ZoneProcessor {
       // history. But it seems like too much work right now to try to dig that
       // out, just to implement the explicit check for kMaxCacheEntries. It
       // would mean maintaining another version of zone_specifier.py.
+#if defined(SEANDST_ACETIME_VERIF)
+      // Verification hook: count transitions dropped because the cache is full.
+      if (mNumTransitions >= kMaxCacheEntries) verifDroppedTransitions()++;
+#endif
       if (mNumTransitions >= kMaxCacheEntries) return;
 
       // insert new element at the end of the list
